@@ -246,6 +246,29 @@ def coq_eval_term(name, header, term, timeout=300):
     return p.stdout.strip()
 
 
+# ----------------------------------------------------------------- deadlines
+def with_deadline(fn, seconds, *args, **kw):
+    """Run fn(*args, **kw) in a helper thread.  Returns (True, value) or (False, None) when it is still running after
+    [seconds] - a call of the implementation that never returns must show up as an observation, not hang the check.
+    An exception raised by fn is re-raised here."""
+    import threading
+    box = {}
+
+    def body():
+        try:
+            box['v'] = fn(*args, **kw)
+        except BaseException as e:   # noqa
+            box['e'] = e
+    t = threading.Thread(target=body, daemon=True)
+    t.start()
+    t.join(seconds)
+    if t.is_alive():
+        return False, None
+    if 'e' in box:
+        raise box['e']
+    return True, box.get('v')
+
+
 # ----------------------------------------------------------------- known findings
 def known_findings(prop):
     p = os.path.join(VERIF, 'known_findings.json')
